@@ -7,10 +7,11 @@ PID = "C08"
 LEAN_MODULE = "NiVerif.Props.C08"
 NAMESPACE = "Props.C08"
 DRIVER = "drivers/C08.lean"
-GEN_MODULES = []
+GEN_MODULES = ["Irregular"]
 THEOREMS = ["genLoop_spec", "regular_kth", "genLoop_err", "regular_refuses_only_on_range", "start_time_spec",
             "irregular_window", "irregular_exact", "irregular_beyond_ValueError", "no_info_error",
-            "negative_args_ValueError", "monoLoop_spec", "mono_iff", "irregular_ctor_accepts_iff"]
+            "negative_args_ValueError", "monoLoop_spec", "mono_iff", "irregular_ctor_accepts_iff",
+            "gen_direction_eq", "gen_loop_eq", "gen_monotonic_eq_model", "gen_monotonic_iff"]
 RULE = ("Timing objects of the three families (datetime µs, hightime ys, bintime ticks) in the three modes with seeded "
         "timestamps/offsets/intervals (negative, sub-microsecond, one-tick, near the range limits), start indices up "
         "to 10^12 and counts 0..8; list(get_timestamps(i,n)) and start_time on the real objects against exact integer "
@@ -185,6 +186,8 @@ def run(ctx):
                 ctx.violation(what="create_with_irregular_interval", seq=s, fam=fam, observed=show(o),
                               required="accepted" if want else "ValueError")
         reqs.append((f"timing mono {render(s)}", "True" if want else "False"))
+        # translation validation of the generated scan (Gen/Irregular.lean) on the same sequences
+        reqs.append(("gen Irregular._are_timestamps_monotonic " + " ".join(str(v) for v in s), "True" if mono else "False"))
         ctx.case(("mono", tuple(s)))
     for bad in ([1, 2], ["a"], [None], 5, None, iter([])):
         o = outcome(Timing.create_with_irregular_interval, bad)
